@@ -167,23 +167,16 @@ def _t(x) -> str:
 
 
 def _swapped_dict(x: ast.AST, P: str) -> bool:
-    """x builds {value: key} from the mapping P"""
+    """x builds {value: key} from the mapping P (comprehensions are in the
+    normal form of rules.sem: one variable per generator, components by index)"""
     t = _t(x).replace(" ", "")
-    if isinstance(x, ast.DictComp) and len(x.generators) == 1 and not x.generators[0].ifs:
-        g = x.generators[0]
-        if _t(g.iter) == f"{P}.items()" and isinstance(g.target, ast.Tuple) and len(g.target.elts) == 2:
-            k, v = [_t(e) for e in g.target.elts]
-            return _t(x.key) == v and _t(x.value) == k
-    if isinstance(x, ast.Call) and _t(x.func) == "dict" and len(x.args) == 1:
-        a = x.args[0]
-        if isinstance(a, ast.Call) and _t(a.func) == "zip" and [_t(z) for z in a.args] == [f"{P}.values()", f"{P}.keys()"]:
-            return True
-        if isinstance(a, (ast.GeneratorExp, ast.ListComp)) and len(a.generators) == 1 and not a.generators[0].ifs:
-            g = a.generators[0]
-            if _t(g.iter) == f"{P}.items()" and isinstance(g.target, ast.Tuple) and len(g.target.elts) == 2 and isinstance(a.elt, ast.Tuple) and len(a.elt.elts) == 2:
-                k, v = [_t(e) for e in g.target.elts]
-                return [_t(e) for e in a.elt.elts] == [v, k]
-    return False
+    forms = {
+        f"{{_c0[1]:_c0[0]for_c0in{P}.items()}}",
+        f"dict(zip({P}.values(),{P}.keys()))",
+        f"dict(zip({P}.values(),{P}))",
+        f"{{{P}[_c0]:_c0for_c0in{P}}}",
+    }
+    return t in forms
 
 
 def check_b(ck, repo):
